@@ -141,7 +141,11 @@ func c10check(w *Worker, b []byte, threeWay bool) {
 	}
 
 	// (C) the internal routine, every start offset, both settings.
-	for start := 0; start <= len(b); start++ {
+	stride := 1
+	if len(b) > 64 {
+		stride = len(b)/16 + 1 // long (sampled) strings: a sample of offsets and split points
+	}
+	for start := 0; start <= len(b); start += stride {
 		for _, brk := range []bool{false, true} {
 			in := append(make([]byte, 0, len(b)+8), b...) // spare capacity: in-place appends would be visible
 			res := redact.VerifInternalEscapeBytes(in, start, brk, false)
@@ -202,7 +206,7 @@ func c10check(w *Worker, b []byte, threeWay bool) {
 			viol("buffer", "unsafe write left text outside envelopes: "+q(one))
 		}
 		c1 := canon(one)
-		for i := 0; i <= len(b); i++ {
+		for i := 0; i <= len(b); i += stride {
 			two := manualWrite(kind, [][]byte{b[:i], b[i:]}, i)
 			w.Eval(1)
 			if canon(two) != c1 {
@@ -272,6 +276,9 @@ func runC10(c *Ctx) {
 	c.ParallelFor(nRand, func(w *Worker, i int64) {
 		r := newRng(c.Seed, 0xc10, uint64(i))
 		n := maxLen + 1 + r.Intn(40)
+		if r.Chance(1, 50) {
+			n = 200 + r.Intn(4000)
+		}
 		b := make([]byte, n)
 		for j := range b {
 			if r.Chance(1, 12) {
